@@ -586,30 +586,20 @@ def seg_eq(p, a, q, b, m):
                 return _peek_eq_lit(x, xa, vals)
             core.note('imprecise', 'opaque content compared with literal of symbolic/large length: treated as different')
             return s_eq(m, 0)
-    if isinstance(p, Frag) and isinstance(q, Frag):
-        if p.base is q.base and p.chain == q.chain:
-            return s_or(s_eq(p.a + a, q.a + b), s_eq(m, 0))
-        return s_eq(m, 0)
-    pa = p.atomic
-    qa = q.atomic
-    if pa and qa:
-        # whole atomic pieces (callers align them); partial overlap is handled via Frag above
-        whole = s_and(s_eq(a, 0), s_eq(b, 0), s_eq(m, p.length()), s_eq(m, q.length()))
-        if isinstance(p, Num) and isinstance(q, Num):
-            if p.chain != q.chain:
-                return s_eq(m, 0)
-            return s_or(s_and(whole, s_eq(p.n, q.n)), s_eq(m, 0))
-        if isinstance(p, U32) and isinstance(q, U32):
-            if p.fmt != q.fmt:
-                return s_eq(m, 0)
-            return s_or(s_and(whole, s_eq(p.n, q.n)), s_eq(m, 0)) if p is not q else s_or(s_eq(a, b), s_eq(m, 0))
-        if isinstance(p, Tok) and isinstance(q, Tok):
-            same = p.d is q.d and p.fmt == q.fmt and p.chain == q.chain
-            return s_or(s_and(whole, same), s_eq(m, 0))
-        return s_eq(m, 0)
+    # atomic pieces and fragments of them: equal content iff the same atom (same parameters) at the same offset
+    def _atom(z, off):
+        if isinstance(z, Frag):
+            return z.base, z.a + off, z.chain
+        if z.atomic:
+            return z, off, ()
+        return None
+    pa = _atom(p, a)
+    qa = _atom(q, b)
+    if pa is not None and qa is not None:
+        if pa[2] != qa[2]:
+            return s_eq(m, 0)
+        return s_or(s_and(atom_same(pa[0], qa[0]), s_eq(pa[1], qa[1])), s_eq(m, 0))
     for x, xa, y, yb in ((p, a, q, b), (q, b, p, a)):
-        if isinstance(x, Frag) and x.base is y and not x.chain:
-            return s_or(s_eq(x.a + xa, yb), s_eq(m, 0))
         if isinstance(x, Num) and isinstance(y, Lit):
             # numeral against literal digits: only whole-piece
             if isinstance(yb, int) and isinstance(m, int):
@@ -631,6 +621,48 @@ def seg_eq(p, a, q, b, m):
                 return True
     core.note('imprecise', 'comparison of %s with %s treated as different' % (type(p).__name__, type(q).__name__))
     return s_eq(m, 0)
+
+
+def nonempty_pieces(r):
+    """pieces of a rope that are non-empty on this path (forks on symbolic lengths)"""
+    out = []
+    for p in pieces_of(r):
+        L = p.length()
+        if isinstance(L, int):
+            if L > 0:
+                out.append(p)
+        elif L > 0:
+            out.append(p)
+    return out
+
+
+def whole_atom(r):
+    """the atomic piece if the rope is exactly one whole atomic piece on this path (possibly wrapped in a full Frag), else None"""
+    ps = nonempty_pieces(r)
+    if len(ps) != 1:
+        return None
+    p = ps[0]
+    if p.atomic:
+        return p
+    if isinstance(p, Frag) and not p.chain:
+        if s_and(s_eq(p.a, 0), s_eq(p.b, p.base.length())):
+            return p.base
+    return None
+
+
+def atom_same(u, v):
+    """do two atomic pieces render the same content? -> bool / SBool"""
+    if u is v:
+        return True
+    if type(u) is not type(v):
+        return False
+    if isinstance(u, Num):
+        return s_and(u.width == v.width and u.chain == v.chain, s_eq(u.n, v.n))
+    if isinstance(u, U32):
+        return s_and(u.fmt == v.fmt, s_eq(u.n, v.n))
+    if isinstance(u, Tok):
+        return u.d is v.d and u.fmt == v.fmt and u.chain == v.chain
+    return False
 
 
 def _decode_chain(seg, chain):
